@@ -209,7 +209,7 @@ def replay(ctx, obj):
 
 
 CHECK = core.Check(
-    'C01', sc.CLUSTER, ['Props/C01.v', 'Props/C01H.v'], translate=sc.translate, correspond=correspond, oracle=oracle, replay=replay,
+    'C01', sc.CLUSTER, ['Props/C01.v', 'Props/C01H.v', 'Props/C01W.v'], translate=sc.translate, correspond=correspond, oracle=oracle, replay=replay,
     deps=('lib',),
     rule='configuration family (AES-128/256, SHA1/256/512, MODP-2048 [3072/4096 thorough], ECP-256/384/521, mismatching '
          'DH preference orders -> INVALID_KE_PAYLOAD retry, ESP/AH, transport/tunnel, IPv4/IPv6, PSK [RSA thorough], PFS) x '
